@@ -33,7 +33,7 @@ func TestVerifRpcGuards(t *testing.T) {
 	logx.Disable()
 	bound := 2
 	if vrt.Thorough() {
-		bound = 3
+		bound = 4
 	}
 	errBiz := errors.New("biz")
 	type sc struct {
